@@ -66,7 +66,7 @@ pub fn check_record(record: &str, shredder: bool) -> Result<bool, Failure> {
 
 pub fn run(ctx: &Ctx) -> Report {
     let mut rep = Report::new(ctx);
-    rep.rule = "Every position along generated histories (DFRC, seed FENs, constructed boards with inner-file rights, EP files, clocks at caps): {:#} text parses back via from_fen(true) and FromStr to an equal board (==, hash, checkers, pins, clocks); {} text likewise when all rights are on a/h; both texts equal the reference formatter applied to the accessor view character for character; consecutive boards of the walk, clock-modified copies, rebuilt copies and null-move results are compared as pairs: (a == b) == (text(a) == text(b)). Boards built from edited (near-invalid) builder states, when accepted, go through the same round-trip and canonical-text checks. Independently, canonical records written by the REFERENCE formatter for constructed states are parsed and formatted: the record must be reproduced exactly. Non-trivial = board with a right on an inner file, an EP file, or a clock at its cap; distinct by text hash.".into();
+    rep.rule = "Every position along generated histories (DFRC, seed FENs, constructed boards with inner-file rights, EP files, clocks at caps): {:#} text parses back via from_fen(true) and FromStr to an equal board (==, hash, checkers, pins, clocks); {} text likewise when all rights are on a/h; both texts equal the reference formatter applied to the accessor view character for character; consecutive boards of the walk, clock-modified copies, rebuilt copies and null-move results are compared as pairs: (a == b) == (text(a) == text(b)). Boards built from edited (near-invalid) builder states, when accepted, go through the same round-trip and canonical-text checks. Independently, canonical records written by the REFERENCE formatter for constructed states are parsed and formatted: the record must be reproduced exactly. In the thorough tier, pairs of different boards with EQUAL hashes are constructed by a generalised-birthday search over the extracted Zobrist keys (pairs differing only in piece kinds, and pairs differing only in piece colours) and go through the same pair check. Non-trivial = board with a right on an inner file, an EP file, or a clock at its cap, or a constructed collision pair; distinct by text hash.".into();
     rep.assumptions = vec!["reference to_fen() defines the canonical record (order: white short, white long, black short, black long; EP square on the passed rank; decimal clocks)".into()];
     rep.required_classes = vec!["inner-file-right", "ep-file-set", "clock-at-cap", "plain-expressible", "pair-equal", "pair-different", "record-accepted-shredder", "record-accepted-plain", "accepted-edited-state"];
     rep.add(run_prop(
@@ -165,7 +165,11 @@ pub fn run(ctx: &Ctx) -> Report {
     if ctx.tier == Tier::Thorough {
         let mut part = PartResult::empty();
         if let Ok(m) = super::c10::model() {
-            for (a, b) in crate::collide::kind_collision_pairs(m, 16) {
+            let kind_pairs = crate::collide::kind_collision_pairs(m, 16);
+            let colour_pairs = crate::collide::colour_collision_pairs(m, 16);
+            part.stats.count("constructed:kind-collision-pairs", kind_pairs.len() as u64);
+            part.stats.count("constructed:colour-swap-collision-pairs", colour_pairs.len() as u64);
+            for (a, b) in kind_pairs.into_iter().chain(colour_pairs) {
                 let (Some(ba), Some(bb)) = (build(&a), build(&b)) else { continue };
                 part.stats.eval(1);
                 part.stats.class_if(ba.hash() == bb.hash(), "constructed-hash-collision-pair");
